@@ -625,7 +625,8 @@ func (c18) Run(input any) kit.Case {
 	for _, p := range in.Params {
 		t, ct := ptypeOf(p.Type)
 		specs = append(specs, &api.ParameterSpec{Name: p.Name, ParameterType: t,
-			FeasibleSpace: &api.FeasibleSpace{Min: p.Min, Max: p.Max, Step: p.Step, List: p.List}})
+			// a copy of the list: in.Params is read again after the calls (feeding trials back, printing replies) and is the replayable input
+			FeasibleSpace: &api.FeasibleSpace{Min: p.Min, Max: p.Max, Step: p.Step, List: append([]string(nil), p.List...)}})
 		// the strconv readings are given only where toGoptunaSearchSpace takes them (Atoi for int, ParseFloat for double)
 		ai, af := [3]string{"None", "None", "None"}, [3]string{"None", "None", "None"}
 		if p.Type == "int" {
@@ -831,7 +832,12 @@ func (c18) Run(input any) kit.Case {
 					}
 					ras = append(ras, kit.List(as))
 					show = append(show, strings.TrimSpace(line))
-					all = append(all, sugg{assigns: pa.Assignments, name: fmt.Sprintf("t%d", len(all))})
+					// copies: the reply belongs to the service; what is fed back in later rounds (KRef) is the reply as printed above
+					kept := make([]*api.ParameterAssignment, 0, len(pa.Assignments))
+					for _, a := range pa.Assignments {
+						kept = append(kept, &api.ParameterAssignment{Name: a.Name, Value: a.Value})
+					}
+					all = append(all, sugg{assigns: kept, name: fmt.Sprintf("t%d", len(all))})
 					birth = append(birth, k)
 					if j < len(rd.Plans) {
 						plans = append(plans, rd.Plans[j])
